@@ -294,10 +294,15 @@ def normalise_T(T):
 
 
 def config_from_options(optstr):
+    """the option string as the command line hands it over: through the argparse definitions the CLI and the plugin
+    share (DoctestConfig._update_argparse_cli), then _populate_from_cli"""
+    import argparse
     from xdoctest import doctest_example
     cfg = doctest_example.DoctestConfig()
-    ns = {'options': optstr, 'offset_linenos': False, 'colored': False, 'reportchoice': 'udiff',
-          'global_exec': None, 'supress_import_errors': False, 'verbose': 0}
+    parser = argparse.ArgumentParser()
+    cfg._update_argparse_cli(parser.add_argument)
+    ns = vars(parser.parse_args(['--options=' + optstr, '--nocolor', '--verbose=0']))
+    ns.setdefault('colored', False)
     return cfg._populate_from_cli(ns)
 
 
@@ -354,7 +359,7 @@ def _check_history(ctx, events, defaults, origin, base):
     dt = doctest_example.DocTest(doc)
     if defaults:
         try:
-            conf = config_from_options(','.join(d.lower() for d in defaults))
+            conf = config_from_options(', '.join(defaults))
         except Exception as ex:
             bad('options-parse-raised', '_populate_from_cli raised %r' % (ex,))
             return
@@ -434,7 +439,10 @@ def world_events(events, exp_out):
 
 
 DEFAULT_CHOICES_DYN = [(), (), ('+REQUIRES(--xvf)',), ('+REQUIRES(--xvg)', '+IGNORE_WHITESPACE'), ('+SKIP',),
-                       ('+REQUIRES(linux)',), ('+REQUIRES(win32)',)]
+                       ('+REQUIRES(linux)',), ('+REQUIRES(win32)',),
+                       # arguments whose case matters, several conditions in one directive (finding F30)
+                       ('+REQUIRES(env:XV_E==1)',), ('+REQUIRES(env:XV_E)', '+IGNORE_WHITESPACE'),
+                       ('+REQUIRES(cpython, linux)',), ('+REQUIRES(linux, --xvf, env:XV_E!=1)',), ('+REQUIRES(cpython,win32)', '-SKIP')]
 DEFAULT_CHOICES = [(), (), ('+SKIP',), ('+IGNORE_WHITESPACE',), ('-SKIP',), ('+REQUIRES(%s)' % UNMET_A,),
                    ('+REQUIRES(module:os)',), ('+REQUIRES(%s)' % UNMET_B, '+IGNORE_WHITESPACE')]
 
@@ -451,7 +459,7 @@ def probe_f9(ctx):
         case = {'probe': 'F9', 'options': opt, 'doc': doc}
         dt = doctest_example.DocTest(doc)
         try:
-            conf = config_from_options(opt.lower())
+            conf = config_from_options(opt)
         except Exception as ex:
             ctx.violation('options-requires', '--options=%s: _populate_from_cli raised %r' % (opt, ex), case, f9=True)
             continue
@@ -472,7 +480,7 @@ def required_cells(tier):
              'event:block', 'event:inline', 'defaults:+SKIP', 'defaults:+IGNORE_WHITESPACE', 'defaults:-SKIP',
              'defaults:+REQUIRES(%s)' % UNMET_A, 'defaults:+REQUIRES(module:os)', 'f9-probe-behaves',
              'cond:flag', 'cond:env:XV_E', 'cond:tag', 'world-changed-inside-the-doctest', 'defaults:+REQUIRES(--xvf)',
-             'spelling:doctest-prefix', 'spelling:two-directives-in-one-comment', 'spelling:lower-case-name',
+             'defaults:+REQUIRES(env:XV_E==1)', 'defaults:+REQUIRES(cpython, linux)', 'spelling:doctest-prefix', 'spelling:two-directives-in-one-comment', 'spelling:lower-case-name',
              'spelling:no-sign']
     cells += ['form:' + f for f in FORMS] + ['blocktail:' + t for t in BLOCK_TAILS]
     return cells
